@@ -399,6 +399,17 @@ pub fn n_threads() -> usize {
 
 const STACK: usize = 8 << 20;
 
+/// Shrinking steps allowed after a failure. Streams whose single case costs a second or more (a
+/// process per case, hundreds of compilations) get a small budget: a failure there is reported with
+/// a less minimal tape rather than after an hour of shrinking.
+fn shrink_budget(property: &str, stream: &str) -> u32 {
+    match (property, stream) {
+        ("C19", "history") => 24,
+        ("C01", "large") => 200,
+        _ => 1500,
+    }
+}
+
 /// A located case is re-run up to this many times before it counts as not reproducing
 /// (the code under test may depend on hash-map iteration order).
 const REPLAY_ATTEMPTS: usize = 32;
@@ -429,7 +440,7 @@ pub fn run_shard(
                 cases: mine as u32,
                 failure_persistence: None,
                 rng_seed: RngSeed::Fixed(derive_seed(seed, &format!("{property}/{}", stream.name), shard)),
-                max_shrink_iters: 1500,
+                max_shrink_iters: shrink_budget(property, stream.name),
                 max_shrink_time: 0,
                 verbose: 0,
                 ..Config::default()
